@@ -171,6 +171,17 @@ def mon_C01(case):
             continue
         if st is None:
             continue
+        sz = l.named.get("sz")
+        if sz is not None:
+            ln, cap, empty = sz.split(",")
+            ln, cap, empty = int(ln), int(cap), empty == "true"
+            nres, nret = len(resident(comp, st)), len(retained(comp, st))
+            if ln != nres:
+                fails.append(Fail(case, i, "len()=%d but %d distinct keys are resident" % (ln, nres)))
+            if ln > cap:
+                fails.append(Fail(case, i, "len()=%d exceeds cap()=%d" % (ln, cap)))
+            if empty != (nret == 0):
+                fails.append(Fail(case, i, "is_empty()=%s but %d entries (resident or ghost) are retained" % (empty, nret)))
         L = st["lists"]
         allk = []
         for n, lst in L.items():
